@@ -10,11 +10,90 @@ loop that looks for the conjugate partner of a first-order pole filters candidat
 
 `conjPartnerMustBeSimple` is true when <test> mentions the order list `O` (the partner must itself be a
 first-order entry), false when only `is_conjugate_pair` is consulted (a higher-order entry of a repeated complex
-pole can then be taken as partner).  The Lean model `ratfunLoop` follows this flag.  Nothing is executed.
+pole can then be taken as partner).  The Lean model `ratfunLoop` follows this flag.
+
+It also lists (a) `keyOptions`: the option names that `InverseLaplaceTransformer.key` reads with
+`kwargs.get('<name>', ...)` when it builds the cache key, and (b) `readOptions`: the option names that the methods
+of `InverseLaplaceTransformer` (other than `key`) and of `UnilateralInverseTransformer` (transformer.py) read from
+`kwargs` (get / pop / subscript), except the diagnostic switches `pdb` and `debug`, which do not influence the
+result.  Props/C10.lean proves `ilt_key_complete : every read option is part of the key` by `decide` over these
+complete finite tables.  Nothing is executed.
 """
 import ast
 import os
 import warnings
+
+
+DIAGNOSTIC = ('pdb', 'debug')
+
+
+def kwargs_defaults(fdef):
+    """(name, default text) for every kwargs.get('x', d) / kwargs.pop('x', d) inside a function"""
+    out = []
+    for node in ast.walk(fdef):
+        if (isinstance(node, ast.Call) and isinstance(node.func, ast.Attribute) and node.func.attr in ('get', 'pop')
+                and isinstance(node.func.value, ast.Name) and node.func.value.id == 'kwargs' and node.args
+                and isinstance(node.args[0], ast.Constant) and isinstance(node.args[0].value, str)):
+            d = ast.unparse(node.args[1]) if len(node.args) > 1 else 'None'
+            pair = (node.args[0].value, d)
+            if pair not in out:
+                out.append(pair)
+    return out
+
+
+def kwargs_names(fdef):
+    """names read from `kwargs` inside a function: kwargs.get('x', ..), kwargs.pop('x', ..), kwargs['x']"""
+    out = []
+    for node in ast.walk(fdef):
+        name = None
+        if (isinstance(node, ast.Call) and isinstance(node.func, ast.Attribute) and node.func.attr in ('get', 'pop')
+                and isinstance(node.func.value, ast.Name) and node.func.value.id == 'kwargs' and node.args
+                and isinstance(node.args[0], ast.Constant) and isinstance(node.args[0].value, str)):
+            name = node.args[0].value
+        elif (isinstance(node, ast.Subscript) and isinstance(node.value, ast.Name) and node.value.id == 'kwargs'
+              and isinstance(node.slice, ast.Constant) and isinstance(node.slice.value, str)):
+            name = node.slice.value
+        if name is not None and name not in out:
+            out.append(name)
+    return out
+
+
+def option_tables(repo, unparsed):
+    key_opts, read_opts = [], []
+    key_defs, read_defs = [], []
+    found_key = False
+    for fname, cname in (('inverse_laplace.py', 'InverseLaplaceTransformer'), ('transformer.py', 'UnilateralInverseTransformer')):
+        try:
+            with warnings.catch_warnings():
+                warnings.simplefilter('ignore')
+                tree = ast.parse(open(os.path.join(repo, 'lcapy', fname)).read())
+        except (SyntaxError, OSError) as e:
+            unparsed.append('%s: %s' % (fname, e))
+            continue
+        for node in tree.body:
+            if isinstance(node, ast.ClassDef) and node.name == cname:
+                for f in node.body:
+                    if not isinstance(f, ast.FunctionDef):
+                        continue
+                    names = kwargs_names(f)
+                    if f.name == 'key' and cname == 'InverseLaplaceTransformer':
+                        found_key = True
+                        rets = [n for n in ast.walk(f) if isinstance(n, ast.Return) and n.value is not None]
+                        # only the first return statement is live
+                        if rets:
+                            live = ast.Module(body=[ast.Expr(rets[0].value)], type_ignores=[])
+                            key_opts = kwargs_names(live)
+                            key_defs = kwargs_defaults(live)
+                    else:
+                        for n in names:
+                            if n not in DIAGNOSTIC and n not in read_opts:
+                                read_opts.append(n)
+                        for pr in kwargs_defaults(f):
+                            if pr[0] not in DIAGNOSTIC and pr not in read_defs:
+                                read_defs.append(pr)
+    if not found_key:
+        unparsed.append('InverseLaplaceTransformer.key not found')
+    return key_opts, sorted(read_opts), found_key, key_defs, sorted(read_defs)
 
 
 def generate(repo):
@@ -49,6 +128,13 @@ def generate(repo):
                 unparsed.append('conjugate partner filter not recognised')
     except SyntaxError as e:
         unparsed.append(str(e))
+    key_opts, read_opts, found_key, key_defs, read_defs = option_tables(repo, unparsed)
+
+    def plst(xs):
+        return '[' + ', '.join('("%s", "%s")' % (a, b.replace('"', "'")) for a, b in xs) + ']'
+
+    def lst(xs):
+        return '[' + ', '.join('"%s"' % x for x in xs) + ']'
     text = '\n'.join([
         '/- GENERATED by harness/translate/tx_ilt.py from lcapy/inverse_laplace.py (InverseLaplaceTransformer.ratfun).',
         '   Do not edit: rewritten on every run of the C10 check. -/',
@@ -56,8 +142,17 @@ def generate(repo):
         '/-- the conjugate partner of a first-order pole must itself be a first-order entry -/',
         'def conjPartnerMustBeSimple : Bool := %s' % ('true' if flag else 'false'),
         'def conjPartnerFilterTranslated : Bool := %s' % ('true' if found else 'false'),
+        '/-- option names that `InverseLaplaceTransformer.key` puts into the cache key -/',
+        'def keyOptions : List String := %s' % lst(key_opts),
+        '/-- option names read from kwargs by the inverse transformer (diagnostic switches pdb/debug excluded) -/',
+        'def readOptions : List String := %s' % lst(read_opts),
+        '/-- (option, default) as written in `key` and at the places where the option is read -/',
+        'def keyOptionDefaults : List (String × String) := %s' % plst(key_defs),
+        'def readOptionDefaults : List (String × String) := %s' % plst(read_defs),
+        'def keyTranslated : Bool := %s' % ('true' if found_key else 'false'),
         'end Lcapy.Laplace.Gen', ''])
-    return text, {'defs': ['conjPartnerMustBeSimple'] if found else [], 'unparsed': unparsed, 'flag': flag}
+    return text, {'defs': (['conjPartnerMustBeSimple'] if found else []) + (['keyOptions', 'readOptions'] if found_key else []),
+                  'unparsed': unparsed, 'flag': flag, 'keyOptions': key_opts, 'readOptions': read_opts}
 
 
 if __name__ == '__main__':
